@@ -28,6 +28,14 @@
 #include <cstring>
 #include <cassert>
 
+/* a decimal stored in an integer element must fit in an integer */
+static bloc::Integer toIntegerElement(bloc::Numeric d)
+{
+  if (!(d >= -9223372036854775808.0 && d < 9223372036854775808.0))
+    throw bloc::RuntimeError(bloc::EXC_RT_OUT_OF_RANGE);
+  return (bloc::Integer)d;
+}
+
 namespace bloc
 {
 
@@ -126,7 +134,7 @@ Value& MemberINSERTExpression::value(Context& ctx) const
       case Type::INTEGER:
         if (a1_type == Type::NUMERIC)
         {
-          rv->insert(rv->begin() + p, a1.isNull() ? Value(Value::type_integer) : Value(Integer(*a1.numeric())));
+          rv->insert(rv->begin() + p, a1.isNull() ? Value(Value::type_integer) : Value(toIntegerElement(*a1.numeric())));
           return val;
         }
         else if (a1.type() == Type::NO_TYPE)
